@@ -360,10 +360,22 @@ func (e *htlcEnv) project(ctx sdk.Context) any {
 	return chain.M{
 		"h": ctx.BlockHeight(), "now": secs(ctx.BlockTime().Sub(e.t0)), "prev": prev, "inBlock": e.inBlock,
 		"minLock": int64(htlctypes.MinTimeLock), "maxLock": int64(htlctypes.MaxTimeLock),
-		"blocked": []any{blkName},
+		"blocked": e.blocked(),
 		"htlc":    htlcs, "q": queue, "sup": sup, "params": params, "bal": bal, "supply": supply,
 		"inexact": int64(inexact),
 	}
+}
+
+// blocked lists the accounts of the universe the bank keeper refuses as
+// recipients of module payouts and plain transfers (application wiring).
+func (e *htlcEnv) blocked() []any {
+	out := []any{}
+	for _, a := range e.accounts() {
+		if e.c.App.BankKeeper.BlockedAddr(e.addrs[a]) {
+			out = append(out, a)
+		}
+	}
+	return out
 }
 
 func hexLower(s string) string {
@@ -597,8 +609,8 @@ func (e *htlcEnv) nextDue(h, n int64) int64 {
 // BeginBlock executes and is watched for a halt) but are logged as one Skip
 // event.
 func (e *htlcEnv) skip(n, dt int64, w *chain.TraceWriter) bool {
-	if dt < 1 {
-		dt = 1
+	if dt < 0 {
+		dt = 0
 	}
 	for n > 0 && !e.dead {
 		h := e.c.Height
